@@ -80,7 +80,13 @@ pub fn dispatch(_ctx: &mut Ctx, op: &str, f: &[&str]) -> Option<String> {
                 Some(s) => Some(s),
                 None => match crate::fam_c19::dispatch(_ctx, op, f) {
                     Some(s) => Some(s),
-                    None => crate::fam_c35::dispatch(_ctx, op, f),
+                    None => match crate::fam_c35::dispatch(_ctx, op, f) {
+                        Some(s) => Some(s),
+                        None => match crate::fam_c29::dispatch(_ctx, op, f) {
+                            Some(s) => Some(s),
+                            None => crate::fam_c30::dispatch(_ctx, op, f),
+                        },
+                    },
                 },
             },
         },
